@@ -12,6 +12,7 @@ OWNERS = {
     "ReadEnumRegister": ["C05", "C09"],
     "ReadFieldListRegister": ["C05", "C09", "C15"],
     "StreamRegisterList": ["C10"],
+    "ReadRegisterList": ["C10"],
     "NewRegisterApi": ["C11"],
     "CommaString": ["C15"],
     "GetList": ["C20"],
@@ -21,7 +22,7 @@ API_THEOREMS = {
     "C05": ["C05_api_number_error_wrapped", "C05_api_text_error_wrapped", "C05_api_enum_error_wrapped", "C05_api_fieldlist_error_wrapped"],
     "C09": ["C09_api_ReadNumberRegister", "C09_api_ReadTextRegister", "C09_api_ReadEnumRegister", "C09_api_ReadFieldListRegister",
             "C09_api_fieldlist_bits"],
-    "C10": ["C10_api_StreamRegisterList", "C10_api_stream_product_lists"],
+    "C10": ["C10_api_StreamRegisterList", "C10_api_stream_product_lists", "C10_api_ReadRegisterList", "C10_api_ReadRegisterList_collects"],
     "C11": ["C11_api_NewRegisterApi"],
     "C20": ["C20_api_GetList"],
     "C15": ["C15_api_ReadFieldListRegister", "C15_api_fieldlist_bits", "C15_api_CommaString", "C15_api_CommaString_deterministic",
